@@ -202,6 +202,8 @@ PLANS["C09"] = {
     "stages": [
         T("derived", "derived", (60, 1500), ["InvC09"]),
         T("ties", "ties", (24, 500), ["InvC09"], chunk=6),
+        # documents whose _expiresAt has passed, or passes during the history, are documents: every derived read sees them
+        T("expiry", "expiry", (6, 60), ["InvC09", "InvC01"], chunk=3, seed_off=17),
         EDG("edges", ["InvC09"], ops=["Derived", "ListIndexes", "ListCollections"]),
         # every membership test over two literals, every window, stopped after 1 and 2 visits, on content-rich states
         EDG("edges-in", ["InvC09"], ops=["Derived"], rich_states=40, states=(3, 30), reads=(0, 0), seed_off=11, event_re=IN_RE),
@@ -311,6 +313,8 @@ PLANS["C11"] = {
         T("retype-reopen", "retypereopen", (8, 100), ["InvC01", "InvAuditDocs", "InvReopen"], backends="bolt,badger"),
         T("extremes", "extremes", (15, 300), ["InvC01", "InvAuditDocs"]),
         T("floats", "floats", (15, 300), ["InvC01", "InvAuditDocs"]),
+        # documents of 4 KB and more, several of them written by one call (one store transaction)
+        T("pads", "pads", (8, 120), ["InvC01", "InvAuditDocs"], chunk=4, heap="6g", seed_off=23),
     ],
 }
 
